@@ -90,7 +90,17 @@ def _complete_midstep(p0, p1, p2, p3, c, t):
         hx.pick(q, c).first = lambda: m.systems.remove_system(q[0].id) if c > 0 else None
     if not m.is_running() or not bool(m):
         return hx.end(hx.fail("fresh model not running"))
-    m.execute()
+    if hx.P.get('second_manager'):
+        # the timestep is driven by ANOTHER SystemManager built for the same model (a second schedule, e.g. a warm-up
+        # phase): what counts is whether the model is still running
+        sm2 = SystemManager(m)
+        for s_ in q:
+            sm2.systems[s_.id] = s_
+        sm2.execution_queue[:] = q
+        sm2.timestep = t
+        sm2.execute_systems()
+    else:
+        m.execute()
     exp = [(s.id, t) for i, s in enumerate(q) if i <= c]
     if c < n - 1:
         hx.reach('skipped_rest')
@@ -198,6 +208,13 @@ def after_complete_step(p0: int, p1: int, p2: int, t: int, inside: bool, n_adv: 
     if m.is_running() or bool(m):
         return hx.end(hx.fail("completed model reports running"))
     raised = None
+    import warnings
+    ctx = warnings.catch_warnings()
+    ctx.__enter__()
+    if hx.P.get('warnings_as_errors'):
+        # (python -W error: how warnings are filtered is ambient configuration; restricted here to warnings issued by the
+        # framework's own modules, so that the analysis engine's warnings stay what they are)
+        warnings.filterwarnings('error', module=r'ECAgent(\..*)?$')
     try:
         if req == 'execute':
             m.execute()
@@ -219,6 +236,10 @@ def after_complete_step(p0: int, p1: int, p2: int, t: int, inside: bool, n_adv: 
             m.execute()
     except ModelCompleteError:
         raised = 'ModelCompleteError'
+    except Warning as w_:
+        raised = 'Warning:' + type(w_).__name__
+    finally:
+        ctx.__exit__(None, None, None)
     if req == 'execute_systems_strict':
         if raised != 'ModelCompleteError':
             return hx.end(hx.fail("strict advance on a complete model did not raise ModelCompleteError"))
@@ -375,13 +396,14 @@ def obligations(tier):
     N = 3 if tier == "quick" else 5
     return [
         X("complete_midstep", complete_midstep, parts=[{"n": n} for n in ns] + [{"n": 2, "foreign": True}, {"n": 3, "foreign": True}] +
-          [{"n": n, "also": a} for n in (2, 3) for a in ("cleanup", "spawn", "remove_first")],
+          [{"n": n, "also": a} for n in (2, 3) for a in ("cleanup", "spawn", "remove_first")] + [{"n": 3, "second_manager": True}],
           labels=("skipped_rest",), labels_for=lambda p: ("skipped_rest",) if p["n"] > 1 else (), timeout=300, encoded=enc,
           bounds={"n": "1..%d" % ns[-1]}),
         X("complete_during_multistep", complete_during_multistep,
           parts=[{"n": n, "k": k} for n, k in (((1, 2), (2, 3), (3, 2)) if tier == "quick" else ((1, 2), (2, 3), (3, 2), (3, 4), (2, 5)))],
           labels=("steps_skipped",), timeout=600, encoded=enc, bounds={"n": "1..3", "k": "2..%d" % (3 if tier == "quick" else 5)}),
         X("after_complete_step", after_complete_step, parts=[{"n": n, "req": r} for n in ((0, 2, 3) if tier == "quick" else (0, 1, 2, 3)) for r in reqs] +
+          [{"n": 2, "req": r, "warnings_as_errors": True} for r in ("execute", "execute_systems", "execute_systems_strict")] +
           [{"n": 2, "req": r, "interrupted": w} for w in ("first", "last") for r in ("execute", "execute_n", "execute_systems", "execute_systems_strict")],
           labels=("completed_inside", "completed_outside"),
           labels_for=lambda p: ("completed_inside", "completed_outside") if p["n"] else ("completed_outside",),
